@@ -26,11 +26,23 @@ def tables(sm) -> dict:
             "marks": [json.dumps(x) for x in marks], "mmarks": [json.dumps(x) for x in mmarks]}
 
 
+def build_map(text: str):
+    """the original map, built with the constructors (NOT through deserialize, which is under test)"""
+    from explorerscript.source_map import SourceMap, SourceMapping, MacroSourceMapping, SourceMapPositionMark
+    d = json.loads(text)
+    mk = lambda m: SourceMapPositionMark(*m)
+    return SourceMap({int(k): SourceMapping(v[0], v[1]) for k, v in d["map"].items()},
+                     [mk(m) for m in d["pos_marks"]],
+                     {int(k): MacroSourceMapping(v[0], v[1], v[2], v[3], tuple(v[4]) if v[4] is not None else None, v[5], dict(v[6]))
+                      for k, v in d["macros"]["map"].items()},
+                     [(y[0], y[1], mk(y[2])) for y in d["macros"]["pos_marks"]])
+
+
 def run_case(case: dict) -> dict:
     """case = {"sm": serialised source map text, "f": [[old, new], ...]}"""
     from explorerscript.source_map import SourceMap
     rec = {"f": case["f"], "storeStatus": "ok", "rewStatus": "ok", "eq": False, "ser1": "", "ser2": "", "origin": case.get("origin", "")}
-    m = SourceMap.deserialize(case["sm"])
+    m = build_map(case["sm"])
     rec["m"] = tables(m)
     rec["reloaded"] = rec["m"]
     rec["rew"] = rec["m"]
@@ -43,7 +55,7 @@ def run_case(case: dict) -> dict:
     except Exception as ex:
         rec["storeStatus"] = type(ex).__name__ + ": " + str(ex)[:100]
     try:
-        m3 = SourceMap.deserialize(case["sm"])
+        m3 = build_map(case["sm"])
         m3.rewrite_offsets({int(a): int(b) for a, b in case["f"]})
         rec["rew"] = tables(m3)
     except Exception as ex:
@@ -83,7 +95,8 @@ def synthetic_maps(max_off: int = 3) -> list[str]:
                     for ra_base in (0, 1, max_off + 2):
                         k += 1
                         d = {"map": {str(o): [o + 1, 4 * (o % 3)] for o in opsel}, "pos_marks": marks[: k % 3],
-                             "macros": {"map": {}, "pos_marks": [[None if k % 2 else "lib/x.exps", "mac", marks[0]]][: (k // 3) % 2]}}
+                             "macros": {"map": {}, "pos_marks": [[None if k % 2 else "lib/x.exps", "mac", marks[0]], [None if k % 2 else "lib/x.exps", "mac", marks[0]],
+                                                                 [None, "mac", marks[1]], ["lib/x.exps", "other", dict(enumerate(marks[0])) and marks[0][:4] + ["m"] + marks[1][5:]]][: (k // 3) % 5]}}
                         for j, o in enumerate(macsel):
                             ra = (ra_base + j) % (max_off + 3)
                             d["macros"]["map"][str(o)] = [None if (k + j) % 2 else "lib/x.exps", f"mac{j}", o + 7, j, ci_opts[(k + j) % 3],
